@@ -1863,7 +1863,8 @@ class Data(BaseCartesianData):
         result = compute_statistic(statistic, data, mask=mask, axis=axis, finite=finite,
                                    positive=positive, percentile=percentile)
 
-        if subarray_slices is None or axis is None:
+        if subarray_slices is None or axis is None or np.ndim(result) == 0:
+            # Nothing to pad (if all axes were collapsed the result is a scalar)
             return result
         else:
             # Since subarray_slices was set above, we need to determine the
